@@ -105,6 +105,21 @@ func c06Segs(c *runner.Ctx) ([]*gen.Seg, string, func(), error) {
 			}
 		}, nil
 	default:
+		if c.Idx%60 == 2 { // stored blocks above 1 MiB uncompressed
+			sch := gen.GenSchema(r)
+			for i := range sch.Fields {
+				sch.Fields[i].StoreP = 10
+			}
+			b, err := gen.BuildSeg(gen.GenBatch(r, sch, 129+r.Intn(140), fmt.Sprintf("B%d", c.Idx), gen.DocOpts{BigStored: true}), 1025)
+			if err != nil {
+				return nil, "big-stored", func() {}, err
+			}
+			lf, err := b.Reload(c.TmpDir, true)
+			if err != nil {
+				return []*gen.Seg{b}, "big-stored", b.Close, err
+			}
+			return []*gen.Seg{b, lf}, "big-stored", func() { b.Close(); lf.Close() }, nil
+		}
 		w, err := gen.GenWorld(r, c.TmpDir, fmt.Sprintf("w%d", c.Idx), gen.WorldOpts{MinDocs: 1})
 		if err != nil {
 			return nil, "world", func() {}, err
